@@ -37,6 +37,15 @@ struct Tracked   // non-trivial => IsPerItemClearNecessary() is true ("owning" i
 static inline int val(const Tracked & t) {return t._v;}
 static inline int val(int t) {return t;}
 
+static inline int key4(int v) {return (v >= 0) ? (v/4) : -((-v+3)/4);}   // floor(v/4)
+// compares the keys only, so that Sort()'s stability is observable
+template<class T> class KeyCompareFunctor
+{
+public:
+   int Compare(const T & a, const T & b, void *) const {const int ka = key4(val(a)), kb = key4(val(b)); return (ka < kb) ? -1 : ((kb < ka) ? 1 : 0);}
+};
+static bool key_less(int a, int b) {return key4(a) < key4(b);}
+
 static std::vector<std::string> split(const std::string & s, char c)
 {
    std::vector<std::string> r; std::string cur;
@@ -121,6 +130,32 @@ template<class T> static bool apply_op(Queue<T> & q, Ideal & ideal, const std::s
    else if (c == "rfi") {o << (q.RemoveFirstInstanceOf(T(I(1))).IsOK() ? "ok" : "err"); for (size_t i=0; i<ideal.size(); i++) if (ideal[i]==I(1)) {ideal.erase(ideal.begin()+i); break;}}
    else if (c == "rli") {o << (q.RemoveLastInstanceOf(T(I(1))).IsOK() ? "ok" : "err"); for (size_t i=ideal.size(); i>0; i--) if (ideal[i-1]==I(1)) {ideal.erase(ideal.begin()+(i-1)); break;}}
    else if (c == "rai") {o << "n" << q.RemoveAllInstancesOf(T(I(1))); std::vector<int> nw; for (size_t i=0; i<ideal.size(); i++) if (ideal[i]!=I(1)) nw.push_back(ideal[i]); ideal = nw;}
+   else if (c == "so")
+   {
+      if (I(1)) q.Sort(KeyCompareFunctor<T>(), U(2), U(3)); else q.Sort(U(2), U(3));
+      o << "-";
+      size_t t = std::min((size_t)U(3), ideal.size());
+      if (U(2) < t) {if (I(1)) std::stable_sort(ideal.begin()+U(2), ideal.begin()+t, key_less); else std::stable_sort(ideal.begin()+U(2), ideal.begin()+t);}
+   }
+   else if (c == "it")
+   {
+      o << "l"; bool first = true; uint32 guard = 0;
+      for (QueueIterator<T> it(q, U(1), I(2)); (it.HasData())&&(guard <= q.GetNumItems()); it++, guard++) {if (!first) o << ","; first = false; o << val(it.GetValue());}
+   }
+   else if ((c == "rsd")||(c == "rd"))
+   {
+      if (c == "rd") {o << "n" << q.RemoveDuplicateItems(); std::stable_sort(ideal.begin(), ideal.end());}
+                else o << "n" << q.RemoveSortedDuplicateItems();
+      Ideal nw; for (size_t i=0; i<ideal.size(); i++) if ((nw.empty())||(nw.back() != ideal[i])) nw.push_back(ideal[i]);
+      ideal = nw;
+   }
+   else if (c == "isp")
+   {
+      o << "i" << q.InsertItemAtSortedPosition(T(I(1)));
+      size_t p = 0;
+      if ((!ideal.empty())&&(ideal[0] <= I(1))) {for (size_t i=ideal.size(); i>0; i--) if (ideal[i-1] <= I(1)) {p = i; break;}}
+      ideal.insert(ideal.begin()+p, I(1));
+   }
    else return false;
    return true;
 }
